@@ -64,3 +64,14 @@ Print Assumptions C07_one_session_per_sender.
 Theorem C07_lock_discipline : Gen.lock_discipline_router = true /\ Gen.lock_discipline_state = true.
 Proof. repeat split; reflexivity. Qed.
 Print Assumptions C07_lock_discipline.
+
+(* ---------- the removal a disconnect triggers is one step of the table (go/ast obligation) ---------- *)
+(* The control-plane model applies remove_disconnected to the router's table as ONE transition:
+   "removes only routes whose destination, next hop or path contains X" is a statement about the
+   table before and after that transition.  Several frame workers handle pings at once, so the
+   statement carries over to the real router only if RemoveDisconnected (like every mutating table
+   operation) is one critical section under the table's write lock — no search under a read lock
+   followed by a delete under the write lock.  Computed from m/table.go on every run. *)
+Theorem C07_disconnect_removal_is_one_step : Gen.table_ops_serialised = true /\ Gen.lock_discipline_table = true.
+Proof. split; reflexivity. Qed.
+Print Assumptions C07_disconnect_removal_is_one_step.
